@@ -65,6 +65,9 @@ func checkLoaderHistory(c *fw.Case, mc *modelCase, ld *mapLoader) {
 }
 
 func (c03) Run(c *fw.Case) {
+	if c.Idx%6 == 5 {
+		failedCalls(c) // call history: failed calls before the case must leave nothing behind
+	}
 	r := c.R
 	d7 := c.Idx%5 == 4
 	u := gen.NewUniverse(r, d7)
